@@ -319,6 +319,7 @@ class FSM(object):
                 # self.bgp_peering.releaseResources(self.protocol)
                 pass
             self._close_connection()
+            self.hold_timer.cancel()
             self.connect_retry_timer.reset(self.connect_retry_time)
             self.state = bgp_cons.ST_ACTIVE
             if self.bgp_peering:
